@@ -85,6 +85,25 @@ def _sanitised_for(lexctx: str, wrappers, prv: str, nxt: str):
         if not wrappers:
             return False, f"no sanitiser at all: a {q} in the text ends the literal"
         last = wrappers[-1]
+        if last.startswith("re.sub("):
+            # a regular-expression substitution removes every triple quote only if its pattern is the bare run of three
+            # quotes: any assertion or extra context leaves some of them in place
+            try:
+                pat, rep = ast.literal_eval("(" + last[len("re.sub("):-1] + ")")
+                import re._parser as _rp
+                items = list(_rp.parse(pat))
+            except Exception:
+                return False, f"`{last}`: pattern or replacement is not a constant the analyser can read"
+            plain = [(str(op), av) for op, av in items]
+            is_bare = (len(plain) == 3 and all(op == "LITERAL" and av == ord(q[0]) for op, av in plain)) or \
+                      (len(plain) == 1 and plain[0][0] in ("MAX_REPEAT", "MIN_REPEAT") and plain[0][1][0] == 3 and
+                       [(str(o), a) for o, a in plain[0][1][2]] == [("LITERAL", ord(q[0]))])
+            if not is_bare:
+                kinds = sorted({op for op, _ in plain} - {"LITERAL"})
+                return False, (f"`{last}` replaces a {q} only in some contexts (pattern uses {', '.join(kinds) or 'other text'}): "
+                               f"the remaining ones still end the literal (in a raw string a backslash does not take the "
+                               f"quote's power to terminate away when the backslashes pair up)")
+            last = f"replace({q!r},{rep!r})"
         if not (last.startswith("replace(") and last.startswith(f"replace({q!r},")):
             # a replace exists earlier but something (join, quoting, concatenation) is applied after it
             if any(w.startswith(f"replace({q!r},") for w in wrappers):
